@@ -360,12 +360,22 @@ class InverseComposite:
         for D in (2, 3):
             for model in ("RigidTransform", "SimilarityTransform", "AffineTransform", "FullAffineTransform") + (("RigidQuaternionTransform",) if D == 3 else ()):
                 yield {"D": D, "model": model}
+        # user-built sequences whose matrix composition takes the other operand-form branches (a full matrix after a
+        # translation, a matrix without translation after a full matrix, ...), forward or in the reversed order of inverse()
+        for seq in (("Translation", "HomogeneousTransform"), ("HomogeneousTransform", "Translation"), ("Translation", "EulerRotation", "Translation"),
+                    ("AnisotropicScaling", "HomogeneousTransform"), ("HomogeneousTransform", "Shearing")):
+            yield {"D": 2, "model": "Sequential", "members": list(seq)}
+        yield {"D": 3, "model": "Sequential", "members": ["Translation", "HomogeneousTransform"]}
 
     def run(self, case, K):
         import deepali.spatial as sp
 
         D = case["D"]
         g, gs = make_grid(K, "g", D, sizes=GSIZES[D], align_corners=True)
+        if case["model"] == "Sequential":
+            members = [build(K, name, g, sym_params(K, name, D, tag=f"p{i}"), "buffer") for i, name in enumerate(case["members"])]
+            t = sp.SequentialTransform(*members)
+            return self._check(K, t, D)
         kw = {"RigidTransform": ("rotation", "translation"), "RigidQuaternionTransform": ("rotation", "translation"),
               "SimilarityTransform": ("rotation", "scaling", "translation"), "AffineTransform": ("rotation", "scaling", "translation"),
               "FullAffineTransform": ("rotation", "scaling", "shearing", "translation")}[case["model"]]
@@ -374,6 +384,9 @@ class InverseComposite:
         for i, (mname, m) in enumerate(t.named_transforms()):
             arr = sym_params(K, type(m).__name__, D, tag=f"p{i}")
             m.data_(K.tensor(arr))
+        self._check(K, t, D)
+
+    def _check(self, K, t, D):
         inv = K.call(t.inverse)
         if not K.ensure_returns(inv, text=Q7):
             return
@@ -395,7 +408,7 @@ class InverseVelocityBounded:
     """Bounded: SVF / SVFFD inverse on smooth fields: || inv(t(x)) - x || is a small fraction of a sample."""
 
     target = "deepali.spatial.nonrigid:StationaryVelocityFieldTransform.inverse"
-    properties = ("C07",)
+    properties = ("C07", "C11")
     symbolic = False
     n_bounded = {"quick": 3, "thorough": 12}
 
